@@ -357,6 +357,30 @@ func c07Prop(rt *rapid.T, rec *ev.Recorder) {
 		return true
 	}
 
+	// commitFault: every statement of the block's transaction succeeds, the COMMIT itself fails (a deferred foreign key is
+	// left dangling by a trigger on the block row; a full disk or an I/O error at commit time look the same to the node).
+	// The attempt must fail and leave nothing behind.
+	commitFault := func(label string) {
+		pre := dumpTables(pathS, faultTables)
+		inj.exec(`CREATE TABLE IF NOT EXISTS vf_parent (id INTEGER PRIMARY KEY)`)
+		inj.exec(`CREATE TABLE IF NOT EXISTS vf_dangling (x INTEGER REFERENCES vf_parent(id) DEFERRABLE INITIALLY DEFERRED)`)
+		inj.exec(`CREATE TRIGGER IF NOT EXISTS vf_commit AFTER INSERT ON block BEGIN INSERT INTO vf_dangling VALUES (424242); END`)
+		err := S.process(tb)
+		inj.exec(`DROP TRIGGER IF EXISTS vf_commit`)
+		inj.exec(`DROP TABLE IF EXISTS vf_dangling`)
+		inj.exec(`DROP TABLE IF EXISTS vf_parent`)
+		if err == nil {
+			fatal(rt, "INCONCLUSIVE: harness: the COMMIT of block %s did not fail although a deferred foreign key was left dangling", tb.brief())
+		}
+		if d := diffDumps(pre, dumpTables(pathS, faultTables)); d != "" {
+			fatal(rt, "[%s] %s: after a ProcessBlock(%s) whose COMMIT failed (%v) part of the block is visible:\n%s", k, label, tb.brief(), err, d)
+		}
+		if lp := lastProcessed(S); lp != lastBefore {
+			fatal(rt, "[%s] %s: last processed block moved %d -> %d although the block's COMMIT failed", k, label, lastBefore, lp)
+		}
+		rec.Class("fault_commit_fails")
+	}
+
 	inj.snapshotRHT()
 	undo := func() {
 		if err := S.reorg(tb.Num); err != nil {
@@ -397,6 +421,12 @@ func c07Prop(rt *rapid.T, rec *ev.Recorder) {
 				undo()
 			}
 		}
+		{
+			label := "COMMIT of the block's transaction fails"
+			commitFault(label)
+			retryAndCheck(label)
+			undo()
+		}
 		// cancellation points: count the observations of a clean attempt, then cancel at the first two, the last eight
 		// and a generated sample of the others
 		probe := newScriptedCtx(0)
@@ -428,7 +458,10 @@ func c07Prop(rt *rapid.T, rec *ev.Recorder) {
 		// a sequence of 1-3 faults (storage statement, cancelled context, cancellation racing the call), then retry
 		nf := rapid.IntRange(1, 3).Draw(rt, "nFaults")
 		for i := 0; i < nf && !completed; i++ {
-			switch rapid.IntRange(0, 6).Draw(rt, "faultKind") {
+			switch rapid.IntRange(0, 7).Draw(rt, "faultKind") {
+			case 7:
+				commitFault(fmt.Sprintf("fault %d of %d in sequence, COMMIT fails", i+1, nf))
+				key += "M,"
 			case 6:
 				if !cancelAt(rapid.IntRange(1, 200).Draw(rt, "cancelAtObservation"), fmt.Sprintf("fault %d of %d in sequence, context cancelled at a generated observation", i+1, nf)) {
 					completed = true
